@@ -544,6 +544,58 @@ def rule_d10(repo):
                         call.lineno, call.func.id, dom, src(ty), dom), '%s:%d' % (ITEMS, call.lineno))
     return res
 
+def rule_d11(repo):
+    """Everything generated from a datatype item pairs the argument names of a constructor with the argument types of its
+    declared type (`zip(constr['args'], argT)`) and treats the constructor's result as a value of the datatype.  Both are
+    assumptions about the item, and the place to establish them is where the item is accepted: `Datatype.parse` records
+    a constructor only after (a) a comparison of the number of names with the number of argument types and (b) a comparison
+    of the result type with the datatype's own type, each with a failure on disagreement.  (zip stops at the shorter
+    list: without (a) the extension is silently cut short; without (b) the distinctness and induction theorems are
+    ill-typed.)"""
+    res = RuleResult('C11.D11', 'a datatype item is accepted only if every constructor builds the datatype and names each of its arguments', floor=2)
+    f = repo.func(ITEMS, 'Datatype.parse')
+    cfg = cfg_of(f.node)
+    flow = flow_of(f.node)
+    recs = [n for n in cfg.nodes if n.kind == 'stmt' and any(isinstance(c, ast.Call) and call_attr(c) == 'append' and (path_of(c.func.value) or '').endswith('constrs')
+                                                              for c in ast.walk(n.ast))]
+    need(recs, 'Datatype.parse: the statement that records a constructor not found')
+    # the parts of the constructor's type: names bound from `<type>.strip_type()`
+    parts = {}
+    for n in ast.walk(f.node):
+        if isinstance(n, ast.Assign) and isinstance(n.value, ast.Call) and call_attr(n.value) == 'strip_type' and isinstance(n.targets[0], ast.Tuple) and \
+                len(n.targets[0].elts) == 2 and all(isinstance(e, ast.Name) for e in n.targets[0].elts):
+            parts = {'args': n.targets[0].elts[0].id, 'res': n.targets[0].elts[1].id}
+
+    def arity(e, pol):
+        cp = compare_parts(e)
+        if not cp or not parts:
+            return False
+        lens = [x for x in cp[1:] if isinstance(x, ast.Call) and is_name(x.func, 'len') and x.args]
+        if len(lens) != 2:
+            return False
+        txt = [src(x.args[0]) for x in lens]
+        names_side = any("['args']" in t or '["args"]' in t for t in txt)
+        types_side = any(t == parts['args'] for t in txt)
+        return names_side and types_side and ((cp[0] is ast.Eq and pol) or (cp[0] is ast.NotEq and not pol))
+
+    def result(e, pol):
+        cp = compare_parts(e)
+        if not cp or not parts:
+            return False
+        about = any(is_name(x, parts['res']) for x in cp[1:])
+        dt = any(isinstance(x, ast.Call) and call_name(x) == 'TConst' and x.args and 'self.name' in src(x.args[0]) for x in (flow.inline(y) for y in cp[1:]))
+        return about and dt and ((cp[0] is ast.Eq and pol) or (cp[0] is ast.NotEq and not pol))
+    for what, pred, why in (('names-match-argument-types', arity, 'zip(constr[\'args\'], argT) in the generated extension stops at the shorter list: with more names than '
+                                                                  'argument types the extension is cut short without a word and the display form raises IndexError'),
+                            ('result-is-the-datatype', result, 'a constructor of type nat => nat is recorded for the datatype, and the generated distinctness and '
+                                                               'induction theorems are ill-typed')):
+        edges = cfg.establishing_edges(pred)
+        ok = bool(edges) and all(cfg.path_avoiding(r, skip_edges=edges) is None for r in recs)
+        res.add('%s :: Datatype.parse :: %s' % (ITEMS, what), ok,
+                'tested before the constructor is recorded' if ok else 'line %d records the constructor without this test: %s' % (recs[0].lineno, why),
+                '%s:%d' % (ITEMS, recs[0].lineno))
+    return res
+
 
 def rules(repo):
-    return [rule_d1(repo), rule_d2(repo), rule_d3(repo), rule_d4(repo), rule_d5(repo), rule_d6(repo), rule_d7(repo), rule_d8(repo), rule_d9(repo), rule_d10(repo)]
+    return [rule_d1(repo), rule_d2(repo), rule_d3(repo), rule_d4(repo), rule_d5(repo), rule_d6(repo), rule_d7(repo), rule_d8(repo), rule_d9(repo), rule_d10(repo), rule_d11(repo)]
